@@ -32,6 +32,18 @@ RULE = ("seeded random documents (maps/sequences/sets to depth 3, repeated equal
         "both notations and APIs: each node get_nodes() returns on a twin is identified by value (scalars) or identity "
         "(containers) - not by the parent / parentref it carries - and the document afterwards must be the original minus "
         "exactly those nodes (an Array as FIRST operand is the known class C04-F6).  "
+        "(integer keys, model leg) documents of DISTINCT scalars whose Hashes use integer keys (0, 1, 80, 443, -1, ...), text keys, "
+        "digit text next to integers - under Hashes, inside Arrays, at the root - x exact paths through those keys in both "
+        "notations (the KEY segment carries text; the evaluator falls back to the integer), `X.*`, searches over such a Hash, "
+        "`**.<int>`, additions of them; judged against the Lean specification like the generic cases.  In the model leg a "
+        "matched node whose NodeCoords carries a parentref that names no child of the reported parent is identified by the node "
+        "itself among the children of that parent (a container by identity; a scalar by identity and a value occurring once in "
+        "the document; exactly one child must qualify, otherwise the case is counted as not located) - the delete is owed to the "
+        "nodes the path matched, whatever coordinates were handed out (signature suffix parentref-names-no-child-of-the-parent).  "
+        "(merge keys, cont.) 40 % of the merge-key documents carry a `shared` Hash (before or after the consumers) with 1-3 "
+        "anchored scalars / Arrays named like ordinary keys (a, b, c, k, t, n, z, p), consumers own keys of those names (plain "
+        "values or aliases of the anchored node) and are deleted by exact paths, `/*/name` and additions: an anchor on a node that "
+        "is not a Hash has nothing to do with merge keys, the own key must be gone.  "
         "distinct_nontrivial = distinct (document, path) pairs that matched >= 1 non-root node.")
 
 CORPUS = [
@@ -86,6 +98,9 @@ def run(chk: core.Check):
         ccases = gen_collector_cases(rng, 1200 if chk.tier == "quick" else 15000)
         chk.extra_cov["collector_addition_container_cases"] = len(ccases)
         cases += ccases
+        kcases = gen_intkey_cases(random.Random(chk.seed * 7919 + 4), 1000 if chk.tier == "quick" else 15000)
+        chk.extra_cov["integer_key_document_cases"] = len(kcases)
+        cases += kcases
         rng.shuffle(cases)
         chunks = core.chunked(cases, 64)
     results = core.pmap(_job, chunks)
@@ -107,6 +122,167 @@ def run(chk: core.Check):
         print("replay:", json.dumps({"violations": chk.violations[:2], "disagreements": chk.disagreements[:2],
                                      "known": {k: v["n"] for k, v in chk.known_hits.items()}})[:1500])
     return chk
+
+
+# --------------------------------------------------------------------------- Hashes with integer keys (model leg)
+#
+# YAML keys may be integers (`80: http`); a KEY segment carries text, and the evaluator falls back from the text to the
+# integer (`/ports/443`, `ports.443`).  The generic documents hold an integer key (1) in 8 % of their Hashes only, and
+# repeated equal scalars there keep `locate` from identifying a matched scalar by its value.  These documents are made
+# of DISTINCT scalars; their Hashes use integer keys (positive, zero, negative, several digits), text keys, digit text
+# next to other integers, and sit under Hashes, inside Arrays and at the root.  Paths: exact ones through the keys in
+# both notations, `X.*`, searches over the keys / values of such a Hash, `**`, additions of them.  The cases run through
+# the ordinary model leg (`_job`): addresses with integer keys are inside the Lean model (Key.int).
+
+INTKEYS = [0, 1, 2, 3, 7, 10, 22, 80, 443, 8080, -1, -5]
+TEXTKEYS = ["a", "b", "k", "n", "p", "80x", "x1", "007", "1.0"]
+
+
+def gen_intkey_doc(rng):
+    n = [100]
+
+    def leaf():
+        n[0] += 1
+        r = rng.random()
+        return {"k": "int", "v": str(n[0])} if r < 0.4 else {"k": "str", "v": "s%d" % n[0]} if r < 0.9 else {"k": "float", "m": str(n[0] * 10 + 5), "e": -1}
+
+    def keys(cnt):
+        r = rng.random()
+        if r < 0.55:
+            ks = rng.sample(INTKEYS, cnt)                                   # integers only
+        elif r < 0.9:
+            ni = rng.randint(1, cnt)
+            ks = rng.sample(INTKEYS, ni) + rng.sample(TEXTKEYS, cnt - ni)   # integers next to text keys
+            rng.shuffle(ks)
+        else:
+            ks = rng.sample(TEXTKEYS, cnt)
+        return ks
+
+    def node(depth):
+        r = rng.random()
+        if depth <= 0 or r < 0.35:
+            return leaf()
+        if r < 0.55:
+            return {"k": "seq", "i": [node(depth - 1) for _ in range(rng.choice([1, 2, 3]))]}
+        return {"k": "map", "e": [[k, node(depth - 1)] for k in keys(rng.choice([1, 2, 3, 3, 4]))]}
+    r = rng.random()
+    if r < 0.15:
+        doc = {"k": "seq", "i": [node(2) for _ in range(rng.choice([1, 2, 3]))]}
+    elif r < 0.35:
+        doc = {"k": "map", "e": [[k, node(2)] for k in keys(rng.choice([2, 3, 4]))]}        # integer keys at the root
+    else:
+        doc = {"k": "map", "e": [[k, node(2)] for k in rng.sample(ed.KEYS, rng.choice([2, 3, 4]))]}
+    if not any(isinstance(a[-1][1], int) and a[-1][0] == "k" for a, _ in ed.all_addrs(doc)):
+        sub = {"k": "map", "e": [[k, leaf()] for k in rng.sample(INTKEYS, 3)]}
+        if doc["k"] == "seq":
+            doc["i"][0] = sub
+        else:
+            doc["e"][0][1] = sub
+    return doc
+
+
+def gen_intkey_cases(rng, ndocs):
+    cases = []
+    for _ in range(ndocs):
+        doc = gen_intkey_doc(rng)
+        nodes = ed.all_addrs(doc)
+        under_int = [a for a, _ in nodes if a[-1][0] == "k" and isinstance(a[-1][1], int)]
+        hashes = [a for a, v in nodes if v["k"] == "map" and any(isinstance(k, int) for k, _ in v["e"])]
+        for _ in range(4):
+            slash = rng.random() < 0.5
+
+            def exact():
+                a = rng.choice(under_int) if rng.random() < 0.8 else rng.choice(nodes)[0]
+                return _addr_text(a, slash)
+
+            def below(suffix_slash, suffix_dot):
+                base = _addr_text(rng.choice(hashes), slash) if hashes else ""
+                if slash:
+                    return base + suffix_slash
+                return base + (suffix_dot if suffix_dot.startswith("[") or not base else "." + suffix_dot)
+            r = rng.random()
+            if r < 0.55:
+                path = exact()
+            elif r < 0.65:
+                path = below("/*", "*")
+            elif r < 0.75:
+                path = below(rng.choice(["[.>5]", "[.=~/^[48]/]", "[.!=1]", "[.=80]"]), rng.choice(["[.>5]", "[.=~/^[48]/]", "[.!=1]", "[.=80]"]))
+            elif r < 0.80:
+                path = rng.choice(["/**", "**"]) if rng.random() < 0.3 else ("/**/" if slash else "**.") + str(rng.choice(INTKEYS[:10]))
+            else:
+                path = "+".join("(%s)" % exact() for _ in range(rng.choice([2, 2, 3])))
+            cases.append({"doc": doc, "path": path, "api": rng.choice(["delete_nodes", "delete_nodes", "gathered"]), "intkeys": True})
+    return cases
+
+
+def locate(nc, table, doc_values, fell_back):
+    """Address of the node a NodeCoords stands for.  Ordinarily the (parent, parentref) it carries (editing.addr_of).
+    When the parentref names no child of the parent, the NODE still says what the path matched - the delete is about
+    the matched nodes -, so it is looked up among the children of the reported parent: a container by identity, a
+    scalar by identity AND a value that occurs once in the whole document (a plain int / str object may be shared by
+    equal scalars, so identity alone proves nothing for them).  Exactly one child must qualify."""
+    from ruamel.yaml.comments import CommentedSet
+    try:
+        return ed.addr_of(nc, table)
+    except ed.NotLocated:
+        parent, node = nc.parent, nc.node
+        base = table.get(id(parent))
+        if base is None or isinstance(parent, (CommentedSet, set)):
+            raise
+        if isinstance(parent, dict):
+            hits = [k for k, v in parent.items() if v is node]
+        elif isinstance(parent, list):
+            hits = [i for i, v in enumerate(parent) if v is node]
+        else:
+            raise
+        if len(hits) != 1:
+            raise
+        if not isinstance(node, (dict, list, set, CommentedSet)):
+            try:
+                if doc_values.get(json.dumps(codec.scalar_to_json(node), sort_keys=True), 0) != 1:
+                    raise ed.NotLocated("scalar value not unique")
+            except codec.OutOfModel:
+                raise ed.NotLocated("scalar outside the model")
+        fell_back.append(1)
+        return base + [codec.ref_of(parent, hits[0])]
+
+
+def gather_located(j, path):
+    """As editing.gather(j, path, "delete"), with `locate` instead of `addr_of`.  Returns (gather result, number of
+    matched nodes identified through the node instead of the parentref)."""
+    from yamlpath import Processor
+    from yamlpath.wrappers import NodeCoords
+    twin = ed.build(j)
+    table = codec.build_addr_table(twin)
+    proc = Processor(core.quiet_logger(), twin)
+    res = ed.guarded(lambda: list(proc.get_nodes(path, mustexist=True)))
+    if res[0] != "ok":
+        return ("err", res[0], res[1]), 0
+    doc_values = {}
+    for _, v in [((), j)] + ed.all_addrs(j):
+        if v["k"] not in ("map", "seq", "set"):
+            t = json.dumps(codec.strip_anchors(v), sort_keys=True)
+            doc_values[t] = doc_values.get(t, 0) + 1
+    out, fell_back = [], []
+
+    def flatten(ncs):
+        for nc in ncs:
+            node = nc.node
+            if isinstance(node, list) and len(node) > 0 and isinstance(node[0], NodeCoords):
+                flatten(node)
+            elif isinstance(node, NodeCoords):
+                flatten([node])
+            else:
+                out.append(locate(nc, table, doc_values, fell_back))
+    try:
+        if ed.snapshot(twin) != j:
+            return ("impure",), 0
+        flatten(res[1])
+        return ("ok", out), len(fell_back)
+    except ed.NotLocated as e:
+        return ("notlocated", str(e)), 0
+    except codec.OutOfModel as e:
+        return ("oom", str(e)), 0
 
 
 # --------------------------------------------------------------------------- slices with bounds beyond the sequence (real code)
@@ -410,6 +586,20 @@ def gen_merge_doc(rng):
     if defs_first:
         defs_section()
 
+    # anchored nodes that are NOT Hashes (scalars, Arrays) named like ordinary keys of the consumers: such an anchor has
+    # nothing to do with merge keys, a consumer's own key of that name is an ordinary member
+    pool = [x for x in MKD_KEYS + ["n", "z", "p"] if x not in defs]
+    shared = rng.sample(pool, rng.randint(1, 3)) if rng.random() < 0.4 else []
+    shared_first = rng.random() < 0.6
+
+    def shared_section():
+        if shared:
+            lines.append("shared:")
+            for n_, name in enumerate(shared):
+                lines.append("  s%d: &%s %s" % (n_, name, rng.choice(["80%d" % n_, "w%d" % n_, "[5%d, 6%d]" % (n_, n_), "true", "1.%d" % n_])))
+    if shared_first:
+        shared_section()
+
     def consumer(ind, first_prefix=None):
         picks = rng.sample(srcs, rng.choice([1, 1, 2, 2, min(3, len(srcs))]))
         merged = {}
@@ -426,8 +616,10 @@ def gen_merge_doc(rng):
                 v = merged[k]                                                 # repeats the merged value
             elif r < 0.58:
                 k, v = rng.choice(picks)[0], "1"                              # a key spelled like an anchor
-            elif defs and r < 0.85:
-                k, v = rng.choice(defs), rng.choice(MKD_VALS)                 # a key spelled like an anchor nobody merges
+            elif (defs or shared) and r < 0.85:
+                k, v = rng.choice(defs + shared), rng.choice(MKD_VALS)        # a key spelled like an anchor nobody merges
+                if k in shared and shared_first and rng.random() < 0.5:
+                    v = "*" + k                                               # ... holding an alias of that anchored scalar / Array
             else:
                 k, v = rng.choice(MKD_KEYS + ["n", "z"]), rng.choice(MKD_VALS)
             if k not in [x[0] for x in ownlines]:
@@ -458,7 +650,9 @@ def gen_merge_doc(rng):
         lines.append("top: [%s]" % ", ".join(rng.choice(MKD_VALS) for _ in range(rng.randint(1, 3))))
     if not defs_first:
         defs_section()
-    return "\n".join(lines) + "\n", srcs, consumers, defs
+    if not shared_first:
+        shared_section()
+    return "\n".join(lines) + "\n", srcs, consumers, defs, shared
 
 
 def _ptext(segs, sep):
@@ -476,8 +670,15 @@ def _ptext(segs, sep):
 def gen_merge_cases(rng, ndocs):
     cases = []
     for _ in range(ndocs):
-        text, srcs, consumers, defs = gen_merge_doc(rng)
+        text, srcs, consumers, defs, shared = gen_merge_doc(rng)
         paths = []
+        for name in shared:
+            # an own key of a consumer (a Hash WITH merge keys) named like an anchored scalar / Array
+            owners = [pre for pre, _, own in consumers if name in own]
+            if owners:
+                pre = rng.choice(owners)
+                paths.append(rng.choice([_ptext(pre + [name], "/"), _ptext(pre + [name], "."),
+                                         "(%s)+(/shared/s0)" % _ptext(pre + [name], "/"), "/*/%s" % name]))
         for name in defs:
             # one delete matching the key that holds the only &name Hash AND the consumers' own keys spelled `name`
             pre = rng.choice(consumers)[0]
@@ -585,6 +786,13 @@ def merge_case(case, bump, viol, keys):
     spelled = []            # (position in `real`, container, key) of matched own keys spelled like an anchored Hash
     order = []              # per matched node: ("own"|"item", container, ref, sort key of _delete_nodes)
     eq_own = {}             # container -> own keys whose value compares equal (==) to that key of a removed merged mapping
+    nonhash_anchors = set()  # anchor names carried by scalars / Arrays (they have nothing to do with merge keys)
+    for c_ in before:
+        if c_["t"] == "seq" and c_["anchor"]:
+            nonhash_anchors.add(c_["anchor"])
+        for v_ in ([v for _, v in c_["own"]] if c_["t"] == "map" else c_["items"]):
+            if v_[0] == "s" and v_[2]:
+                nonhash_anchors.add(v_[2])
     for nc in real:
         parent, pref = nc.parent, nc.parentref
         if parent is None or id(parent) not in ids:
@@ -634,6 +842,8 @@ def merge_case(case, bump, viol, keys):
             feats.add("own-key")
             if c["merge"] and isinstance(kj, str) and any(codec.anchor_of(m) == kj for m in amaps):
                 spelled.append((len(order), ci, kj))
+            elif c["merge"] and kj in nonhash_anchors:
+                feats.add("own-key-named-like-an-anchored-scalar-or-array")
             order.append(("own", ci, json.dumps(kj), 0))
             continue
         bump("merge-doc:skipped:matched-an-inherited-key")
@@ -837,7 +1047,15 @@ def _job(cases):
         if g[0] == "oom":
             stats["oom"] += 1
             continue
+        byid = 0
         if g[0] == "notlocated":
+            # the parentref names no child of the parent: the matched NODE is looked up under the reported parent
+            try:
+                g, byid = gather_located(j, path)
+            except codec.OutOfModel:
+                stats["oom"] += 1
+                continue
+        if g[0] != "ok":
             bump("skipped:result-does-not-locate-a-node")
             continue
         addrs = g[1]
@@ -849,13 +1067,19 @@ def _job(cases):
         except codec.OutOfModel:
             stats["oom"] += 1
             continue
-        pend.append((case, addrs, res, after))
+        pend.append((case, addrs, res, after, byid))
     if not pend:
         return stats, viol, disag, samples, keys
-    answers = core.Driver().ask([{"op": "C04.delete", "doc": c["doc"], "addrs": a} for c, a, _, _ in pend])
-    for (case, addrs, res, after), ans in zip(pend, answers):
+    answers = core.Driver().ask([{"op": "C04.delete", "doc": c["doc"], "addrs": a} for c, a, _, _, _ in pend])
+    for (case, addrs, res, after, byid), ans in zip(pend, answers):
         j = case["doc"]
         feats = []
+        if byid:
+            feats.append("parentref-names-no-child-of-the-parent")
+        if case.get("intkeys"):
+            bump("intkeys:judged")
+            if any(isinstance(a[-1][1], int) and a[-1][0] == "k" for a in addrs if a):
+                bump("intkeys:matched-a-member-under-an-integer-key")
         if ed.has_dup(addrs):
             feats.append("same-node-twice")
         if ed.unsorted_siblings(addrs):
@@ -893,7 +1117,10 @@ def _job(cases):
             continue
         if after != spec["ok"]:
             sig = "delete-wrong-nodes:" + ("+".join(f for f in feats if f != "nested") or "other")
-            viol.append((sig, "after delete %s the document is not the original minus the matched nodes" % case["path"], rep))
+            viol.append((sig, "after delete %s (%s) the document is not the original minus the matched nodes %s%s; it is %s" % (
+                case["path"], case.get("api", "delete_nodes"), ["".join("[%d]" % r_ if k_ == "i" else "/" + str(r_) for k_, r_ in a) or "/" for a in addrs][:6],
+                " (%d of them identified by the node itself: the parentref handed out names no child of the parent)" % byid if byid else "",
+                json.dumps(codec.json_to_plain(after), default=list)[:240]), rep))
             continue
         keys.append(_key(case))
         if len(samples) < 2 and len(addrs) > 1:
